@@ -30,7 +30,9 @@ type c12Case struct {
 }
 
 func c12Answers(text string, reqs []Q, file bool) (string, error) {
-	st, cleanup, err := buildStorage([]ListSpec{{ID: 7, Text: text, File: file}})
+	// the list id depends on the requests only (the same for a list and its noisy variant); with id 0 the storage
+	// index of a rule on the first line is 0
+	st, cleanup, err := buildStorage([]ListSpec{{ID: []int{0, 7, -1}[len(reqs)%3], Text: text, File: file}})
 	if err != nil {
 		return "", err
 	}
@@ -284,7 +286,10 @@ func genC12Line(t *rapid.T) c12Case {
 		line = pick(t, "hostile", []string{"a", "^", "a$domain=x.com", "|$client=1.1.1.1", "ab$ctag=x", "||$denyallow=a.com", "*$dnstype=A", "a|$domain=x.com", "|a$domain=x.com",
 			"/[/", "/(/", "/a{2,1}/", "/\\/", "//", "///", "/a/$domain=x.com", "@@a$domain=x.com", "$domain=x.com", "$$", "#", "##", "#@#", "a##", "##a", "a#@#b",
 			"0.0.0.0", "0.0.0.0 ", "::", ":: a", "1.2.3.4 a#b", "a#", "a #", "a.com#", "@@||a^$dnsrewrite", "||a^$dnsrewrite=;;", "||a^$client=", "||a^$client='", "||a^$ctag=~",
-			"#@ merged from example.org", "#@todo", "#?ref=list", "#%20generated", "#$ price", "#@$", "#@?x", "#@%x", "#$?x", "#@", "#?", "#$", "#%"})
+			"#@ merged from example.org", "#@todo", "#?ref=list", "#%20generated", "#$ price", "#@$", "#@?x", "#@%x", "#$?x", "#@", "#?", "#$", "#%",
+			// rewrites with an empty value, for every record type that has a parser
+			"||4.3.2.1.in-addr.arpa^$dnsrewrite=NOERROR;PTR;", "||a^$dnsrewrite=NOERROR;A;", "||a^$dnsrewrite=NOERROR;AAAA;", "||a^$dnsrewrite=NOERROR;MX;", "||a^$dnsrewrite=NOERROR;SRV;",
+			"||a^$dnsrewrite=NOERROR;TXT;", "||a^$dnsrewrite=NOERROR;HTTPS;", "||a^$dnsrewrite=NOERROR;SVCB;", "||a^$dnsrewrite=NOERROR;CNAME;", "||a^$dnsrewrite=NOERROR;PTR;.", "||a^$dnsrewrite=."})
 	case 5:
 		line = string(rapid.SliceOfN(rapid.Byte(), 0, 40).Draw(t, "bytes"))
 	}
